@@ -16,6 +16,7 @@ mod g_misc;
 mod g_new;
 mod g_seq;
 mod g_serde;
+mod g_wide;
 mod g_zip;
 mod lanes;
 mod ledger;
